@@ -93,11 +93,12 @@ deriving Repr, DecidableEq
 
 /-- Test3k3yImage -/
 def test3k3y (rd : Nat → Nat → Bytes) : Kind3k3y :=
+  -- the file may end inside the area: the watermark (and the key of an encrypted image) are its first bytes
   let d := rd maskBegin Gen.fs__3k3yMaskedDataSize
-  if d.length != Gen.fs__3k3yMaskedDataSize then .no
+  if d.length < 16 then .no
   else
     let wm := d.take 16
-    if wm == Gen.fs__3k3yEncWatermark.map UInt8.ofNat then .enc (slice d 16 16)
+    if wm == Gen.fs__3k3yEncWatermark.map UInt8.ofNat then (if d.length < 32 then .no else .enc (slice d 16 16))
     else if wm == Gen.fs__3k3yDecWatermark.map UInt8.ofNat then .dec
     else .no
 
